@@ -411,6 +411,22 @@ func runC12(c *ev.Ctx) {
 	addv(true, spec.B(true), "bool")
 	addv(false, spec.B(false), "bool")
 	addv(nil, spec.NilV, "nil")
+	// typed slice/map flavours carrying every scalar of the boundary alphabets
+	for _, f := range floatsF() {
+		addv([]float64{0.5, f}, spec.L(spec.F(0.5), spec.F(f)), "slice-float64-elem")
+		addv(map[string]float64{"k": f}, spec.O(spec.P("k", spec.F(f))), "map-float64-elem")
+	}
+	for _, i := range intsI() {
+		addv([]int{i, 1}, spec.L(spec.I(i), spec.I(1)), "slice-int-elem")
+		addv(map[string]int{"k": i}, spec.O(spec.P("k", spec.I(i))), "map-int-elem")
+		addv([]interface{}{int64(i)}, spec.L(spec.I(i)), "slice-any-int64-elem")
+	}
+	stringsUpTo(2, func(s string) bool {
+		addv([]string{s}, spec.L(spec.S(s)), "slice-string-elem")
+		addv(map[string]string{s: s}, spec.O(spec.P(s, spec.S(s))), "map-string-elem")
+		addv(map[string]interface{}{s: nil}, spec.O(spec.P(s, spec.NilV)), "map-any-key")
+		return true
+	})
 	vals = append(vals, c12Natives()...)
 	vals = append(vals, c12Unsupported()...)
 	// containers by reference
